@@ -1358,17 +1358,20 @@ namespace jsoncons {
         {
             if (other.storage_kind() == json_storage_kind::const_json_ref)
             {
-                auto alloc = cast<long_string_storage>().get_allocator();
-                destroy();
-                construct<null_storage>(); // stay valid if the copy throws
-                uninitialized_copy_a(other.cast<const_json_ref_storage>().value(), alloc);
+                // assign the referenced value; *this may hold any kind of storage
+                const basic_json& ref = other.cast<const_json_ref_storage>().value();
+                if (this != &ref)
+                {
+                    copy_assignment(ref);
+                }
             }
             else if (other.storage_kind() == json_storage_kind::json_ref)
             {
-                auto alloc = cast<long_string_storage>().get_allocator();
-                destroy();
-                construct<null_storage>(); // stay valid if the copy throws
-                uninitialized_copy_a(other.cast<json_ref_storage>().value(), alloc);
+                const basic_json& ref = other.cast<json_ref_storage>().value();
+                if (this != &ref)
+                {
+                    copy_assignment(ref);
+                }
             }
             else if (is_primitive_storage(other.storage_kind()))
             {
